@@ -180,3 +180,95 @@ Example c11_nonvacuous_heap :
 Proof.
   cbv zeta. split; [apply TopologyProofs.heap_ok_b_sound; reflexivity|]. split; reflexivity.
 Qed.
+
+(** * MinHeap and compute_core at the array level (L0), proved (Proofs/HeapProofs.v).
+    These close the gap left open above ([heap_pop_is_min_partial] assumed [heap_ok]; L0 was tied to L1
+    by the correspondence run only). Vocabulary from Proofs/HeapProofs.v:
+    [live h v := exists i, i < h_size h /\ nthn (h_val h) i = v] (v is stored at a live position);
+    [core_pop_sequence g] := the list of [min_node]s popped by the loop of compute_core (same loop as
+    [core_loop], recording the popped node instead of the labels). *)
+From SKN Require Import Proofs.HeapProofs.
+
+(** insert_key keeps the heap invariant: there is room, k indexes [pos], and k is not already in the heap. *)
+Theorem heap_ok_insert_key (h : heap) (k : nat) (scores : list Z) :
+  heap_ok h scores -> h_size h < List.length (h_val h) -> k < List.length (h_pos h) -> ~ live h k ->
+  heap_ok (insert_key h k scores) scores.
+Proof. exact (HeapProofs.heap_ok_insert_key h k scores). Qed.
+Print Assumptions heap_ok_insert_key.
+
+(** ... and adds exactly k: size + 1, array lengths kept, live nodes = old live nodes + k, the [pos]
+    entries of all other non-live nodes (stale entries of popped nodes included) untouched. *)
+Theorem insert_key_spec (h : heap) (k : nat) (scores : list Z) :
+  heap_ok h scores -> h_size h < List.length (h_val h) -> k < List.length (h_pos h) -> ~ live h k ->
+  let h' := insert_key h k scores in
+  heap_ok h' scores /\ h_size h' = S (h_size h) /\
+  List.length (h_val h') = List.length (h_val h) /\ List.length (h_pos h') = List.length (h_pos h) /\
+  (forall v, live h' v <-> live h v \/ v = k) /\
+  (forall v, ~ live h v -> v <> k -> nthn (h_pos h') v = nthn (h_pos h) v).
+Proof. exact (HeapProofs.insert_key_spec h k scores). Qed.
+Print Assumptions insert_key_spec.
+
+(** decrease_key: [s] are the scores at the last heap operation, [s'] the scores now; only the score of
+    j changed and it did not increase (compute_core: degrees[j] -= 1). Then the invariant holds again
+    w.r.t. [s'], and sizes, lengths, live set and the [pos] of non-live nodes are unchanged ([hframe]).
+    Nothing is assumed about j being in the heap: for a popped j (stale [pos], never cleared by the code)
+    the live scores are unchanged and the loop finds nothing to do. *)
+Theorem heap_ok_decrease_key (h : heap) (j : nat) (s s' : list Z) :
+  heap_ok h s -> (forall v, v <> j -> nthz s' v = nthz s v) -> (nthz s' j <= nthz s j)%Z ->
+  heap_ok (decrease_key h j s') s' /\
+  (List.length (h_val (decrease_key h j s')) = List.length (h_val h) /\
+   List.length (h_pos (decrease_key h j s')) = List.length (h_pos h) /\
+   h_size (decrease_key h j s') = h_size h /\
+   (forall v, live (decrease_key h j s') v <-> live h v) /\
+   (forall v, ~ live h v -> nthn (h_pos (decrease_key h j s')) v = nthn (h_pos h) v)).
+Proof. exact (HeapProofs.decrease_key_spec h j s s'). Qed.
+Print Assumptions heap_ok_decrease_key.
+
+(** pop_min (with min_heapify) keeps the invariant on a non-empty heap. *)
+Theorem heap_ok_pop_min (h : heap) (scores : list Z) :
+  heap_ok h scores -> 0 < h_size h -> heap_ok (snd (pop_min h scores)) scores.
+Proof. exact (HeapProofs.heap_ok_pop_min h scores). Qed.
+Print Assumptions heap_ok_pop_min.
+
+(** pop_min returns a live node of minimum score and removes exactly it; the popped node keeps the
+    stale position 0 (so that a later decrease_key on it is a no-op, [decrease_key_stale_noop]). *)
+Theorem pop_min_returns_min (h : heap) (scores : list Z) :
+  heap_ok h scores -> 0 < h_size h ->
+  let m := fst (pop_min h scores) in
+  let h' := snd (pop_min h scores) in
+  live h m /\ (forall v, live h v -> (nthz scores m <= nthz scores v)%Z) /\
+  heap_ok h' scores /\ h_size h' = h_size h - 1 /\
+  (forall v, live h' v <-> live h v /\ v <> m) /\
+  nthn (h_pos h') m = 0.
+Proof. exact (HeapProofs.pop_min_returns_min h scores). Qed.
+Print Assumptions pop_min_returns_min.
+
+(** Refinement L0 -> L1. On a symmetric pattern with duplicate-free rows (self-loops allowed; symmetry
+    implies wf_graph) compute_core terminates within its fuel, the nodes it pops form an ADMISSIBLE removal
+    sequence for [peel] (peel returns [None] unless every removed node is alive and of minimum remaining
+    degree; the invariant of the proof is: heap_ok w.r.t. [degrees], live nodes = nodes not yet popped,
+    degrees[v] = remaining degree of v for every live v), and the labels it writes are those of [peel]. *)
+Theorem compute_core_refines_peel (g : graph) :
+  (forall u, NoDup (row g u)) -> (forall u v, In v (row g u) -> In u (row g v)) ->
+  exists labels, peel g (core_pop_sequence g) = Some labels /\
+                 compute_core g = Some (map Z.of_nat labels).
+Proof. exact (HeapProofs.compute_core_refines_peel g). Qed.
+Print Assumptions compute_core_refines_peel.
+
+(** Hence compute_core as coded (MinHeap arrays included) returns the core numbers. *)
+Theorem compute_core_exact (g : graph) :
+  (forall u, NoDup (row g u)) -> (forall u v, In v (row g u) -> In u (row g v)) ->
+  exists labels, compute_core g = Some (map Z.of_nat labels) /\
+                 List.length labels = List.length g /\
+                 forall v, v < List.length g -> core_number g v (nthn labels v).
+Proof. exact (HeapProofs.compute_core_exact g). Qed.
+Print Assumptions compute_core_exact.
+
+(** Non-vacuity: on the 5-node graph above (hypotheses shown in c11_nonvacuous_cliques) the pop sequence is
+    a genuine interleaving of heap operations and peel accepts it. *)
+Example c11_nonvacuous_core_l0 :
+  let g := [[1; 2]; [0; 2]; [0; 1; 3]; [2; 4]; [3]] in
+  core_pop_sequence g = [4; 0; 1; 3; 2] /\
+  peel g (core_pop_sequence g) = Some [2; 2; 2; 1; 1] /\
+  compute_core g = Some (map Z.of_nat [2; 2; 2; 1; 1]).
+Proof. cbv zeta. repeat split; reflexivity. Qed.
